@@ -325,6 +325,9 @@ func (c *StructCase) callWith(src interface{}, unscoped valid.RM, perType map[st
 		}
 		vs.SetRule(perType[n], c.typeToken(libType(n), false))
 	}
+	if c.Twice {
+		multiTokenDecoy(vs, c.Unscoped)
+	}
 	for _, n := range c.CallFns {
 		vs.SetValidFn(n, perCallFn(n))
 	}
